@@ -3,9 +3,11 @@ package harness
 import (
 	"bytes"
 	"fmt"
+	"reflect"
 	"strings"
 
 	"github.com/google/go-cmp/cmp"
+	"github.com/google/go-cmp/cmp/cmpopts"
 	"golang.org/x/text/language"
 
 	"seehuhn.de/go/geom/matrix"
@@ -512,6 +514,58 @@ func c10Subset(r *run.Run) {
 			for i := 0; i < ng && i < back.NumGlyphs(); i++ {
 				if back.GlyphWidth(glyph.ID(i)) != sub.GlyphWidth(glyph.ID(i)) {
 					c.Fail("C10.reread", sig, "glyph %d of the re-read subset has width %v want %v", i, back.GlyphWidth(glyph.ID(i)), sub.GlyphWidth(glyph.ID(i)))
+				}
+				if back.GlyphName(glyph.ID(i)) != sub.GlyphName(glyph.ID(i)) && sub.GlyphName(glyph.ID(i)) != "" {
+					c.Fail("C10.reread", sig+" name", "glyph %d of the re-read subset is called %q want %q; %s list %v", i, back.GlyphName(glyph.ID(i)), sub.GlyphName(glyph.ID(i)), desc, origCopy)
+				}
+			}
+			// what was checked on the subset in memory also holds for the file: outlines, CIDs, the private
+			// dictionary and font matrix of every glyph, component references, the character map
+			switch so := sub.Outlines.(type) {
+			case *cff.Outlines:
+				bo, ok := back.Outlines.(*cff.Outlines)
+				if !ok || len(bo.Glyphs) != len(so.Glyphs) {
+					c.Fail("C10.reread", sig, "the re-read subset has other outlines (%T)", back.Outlines)
+					break
+				}
+				for i := range so.Glyphs {
+					gi := glyph.ID(i)
+					if !reflect.DeepEqual(so.Glyphs[i].Cmds, bo.Glyphs[i].Cmds) && !cmp.Equal(so.Glyphs[i].Cmds, bo.Glyphs[i].Cmds, cmpopts.EquateEmpty(), cmpopts.EquateApprox(0, 1.0/65536)) {
+						c.Fail("C10.reread", sig+" outline", "glyph %d of the re-read subset has another outline; %s list %v", i, desc, origCopy)
+					}
+					if !reflect.DeepEqual(so.Private[so.FDSelect(gi)], bo.Private[bo.FDSelect(gi)]) && !cmp.Equal(so.Private[so.FDSelect(gi)], bo.Private[bo.FDSelect(gi)], cmpopts.EquateEmpty()) {
+						c.Fail("C10.reread", sig+" private dict", "glyph %d of the re-read subset gets another private dictionary (font dictionary %d, in memory %d); %s list %v", i, bo.FDSelect(gi), so.FDSelect(gi), desc, origCopy)
+					}
+					if so.IsCIDKeyed() {
+						if len(bo.GIDToCID) != len(so.GIDToCID) || bo.GIDToCID[i] != so.GIDToCID[i] {
+							c.Fail("C10.reread", sig+" cid", "glyph %d of the re-read subset has another CID; %s list %v", i, desc, origCopy)
+						}
+						if bo.FontMatrices[bo.FDSelect(gi)] != so.FontMatrices[so.FDSelect(gi)] {
+							c.Fail("C10.reread", sig+" font matrix", "glyph %d of the re-read subset gets font matrix %v, in memory %v; %s list %v", i, bo.FontMatrices[bo.FDSelect(gi)], so.FontMatrices[so.FDSelect(gi)], desc, origCopy)
+						}
+					}
+				}
+			case *glyf.Outlines:
+				bo, ok := back.Outlines.(*glyf.Outlines)
+				if !ok || len(bo.Glyphs) != len(so.Glyphs) {
+					c.Fail("C10.reread", sig, "the re-read subset has other outlines (%T)", back.Outlines)
+					break
+				}
+				for i := range so.Glyphs {
+					if !reflect.DeepEqual(so.Glyphs[i], bo.Glyphs[i]) && !cmp.Equal(so.Glyphs[i], bo.Glyphs[i], cmpopts.EquateEmpty()) {
+						c.Fail("C10.reread", sig+" outline", "glyph %d of the re-read subset differs from the subset in memory; %s list %v", i, desc, origCopy)
+					}
+				}
+			}
+			if sb != nil {
+				if bb, _ := back.CMapTable.GetBest(); bb == nil {
+					c.Fail("C10.reread", sig+" cmap", "the re-read subset has no usable cmap; %s list %v", desc, origCopy)
+				} else {
+					for _, ru := range []rune{'A', 'a', 'B', 'C', 'D', 'f', 'i', 0xFB01, 0x1F600, 0x1F601} {
+						if bb.Lookup(ru) != sb.Lookup(ru) {
+							c.Fail("C10.reread", sig+" cmap", "%U maps to %d in the re-read subset, %d in memory; %s list %v", ru, bb.Lookup(ru), sb.Lookup(ru), desc, origCopy)
+						}
+					}
 				}
 			}
 		})
